@@ -318,19 +318,45 @@ func checkExport(w *W, st *c19stats, rep lib.Report, vec, lang, text string) {
 type failAfter struct {
 	data []byte
 	n    int
+	err  error // the fault (nil: a plain error value)
+	with bool  // the fault is returned together with the last bytes (n > 0, err) instead of after them
 }
 
+// eofLike is an error that claims to be io.EOF under errors.Is without being it.
+type eofLike struct{}
+
+func (eofLike) Error() string        { return "stream ended early" }
+func (eofLike) Is(target error) bool { return target == io.EOF }
+
+// timeoutErr looks like a temporary network error.
+type timeoutErr struct{}
+
+func (timeoutErr) Error() string   { return "i/o timeout" }
+func (timeoutErr) Timeout() bool   { return true }
+func (timeoutErr) Temporary() bool { return true }
+
+// readFaults are the error values a failing reader reports: each of them is a failure (none is io.EOF itself).
+var readFaults = []error{errors.New("injected read fault"), fmt.Errorf("truncated stream: %w", io.EOF), io.ErrUnexpectedEOF, fmt.Errorf("body: %w", io.ErrUnexpectedEOF),
+	io.ErrClosedPipe, io.ErrNoProgress, os.ErrClosed, os.ErrDeadlineExceeded, eofLike{}, timeoutErr{}, errors.Join(io.EOF, errors.New("checksum mismatch")), &os.PathError{Op: "read", Path: "template", Err: io.EOF}}
+
 func (f *failAfter) Read(p []byte) (int, error) {
+	fault := f.err
+	if fault == nil {
+		fault = readFaults[0]
+	}
 	if f.n <= 0 {
-		return 0, errors.New("injected read fault")
+		return 0, fault
 	}
 	k := min(len(p), f.n, len(f.data))
 	if k == 0 {
-		return 0, errors.New("injected read fault")
+		return 0, fault
 	}
 	copy(p, f.data[:k])
 	f.data = f.data[k:]
 	f.n -= k
+	if f.with && f.n == 0 {
+		return k, fault
+	}
 	return k, nil
 }
 
@@ -451,8 +477,10 @@ func checkReaders(w *W, rep lib.Report, vec, lang, text string, rng *rand.Rand) 
 		}
 		w.Eval(1)
 		w.Count("reader_faults_injected")
-		c.Args["reader"] = fmt.Sprintf("fails after %d bytes", k)
-		got, gotNil, gerr, pan := rep.ExportWith(&failAfter{data: []byte(text), n: k})
+		fi := int(Hash(text)>>7+uint64(k)) % len(readFaults)
+		with := (Hash(text)>>17+uint64(k))%3 == 0
+		c.Args["reader"] = fmt.Sprintf("fails after %d bytes with %T %q (returned with the last bytes: %v)", k, readFaults[fi], readFaults[fi].Error(), with)
+		got, gotNil, gerr, pan := rep.ExportWith(&failAfter{data: []byte(text), n: k, err: readFaults[fi], with: with})
 		if pan != nil {
 			w.Violate(Violation{Monitor: "C19", Check: "ExportWith does not panic on a failing reader", Case: c, Observed: pan.Value})
 			continue
